@@ -161,9 +161,9 @@ def blob_read_mem_scenario(max_pages=2):
 
 def blob_read_mem_claims(s, I):
     out = []
-    cap = s.npages * U64(PAGE) + U64(65536)
+    cap = U64(4) * s.npages * U64(PAGE) + U64(1 << 20)        # "a fixed multiple of the input size plus a constant": generous on purpose
     for k, a in enumerate(s.allocs):
-        out.append(("allocation %d is bounded by the device size + 64 KiB, whatever length the descriptor declares" % k, z3.ULE(a, cap)))
+        out.append(("allocation %d is bounded by 4 x device size + 1 MiB, whatever length the descriptor declares" % k, z3.ULE(a, cap)))
         out.append(("allocation %d is not of the order of a declared length (256 MiB .. 4 GiB) on a device of a few pages" % k, z3.Not(z3.And(z3.UGE(a, U64(BIG_LO)), z3.ULE(a, U64(BIG_HI))))))
     if s.res.vname == "Ok":
         out.append(("Ok only for a blob that lies inside the file", z3.ULE(logical(s.boff) + U64(16) + s.blen, s.npages * U64(PAYLOAD))))
